@@ -211,6 +211,7 @@ let fib_main () =
                   else cur.ht <- ht_step (mnat ()) cur.ht o) fops
             end
         | "X" :: rest -> Printf.printf "ANOMALY %s %d %s\n" cur.case_id cur.opno (String.concat " " rest)
+        | "N" :: rest -> Printf.printf "NOTE %s\n" (String.concat " " rest)
         | ["E"] -> finish_case ()
         | [label; kind; value] when label = "T" || label = "H" -> handle_obs label kind value
         | [""] | [] -> ()
